@@ -646,7 +646,7 @@ def run_batch(run, wire, builders, stats, samples, distinct):
     analyses = [analyse(m, r) for m, r in zip(metas, results)]
     good = [i for i, a in enumerate(analyses) if not a.get("error") and not a["problems"]]
     exprs = ["(cancel_drop_removes code_variant, exit_entry_first code_variant)"] + [coq_expr(analyses[i]) for i in good]
-    vals = vlib.coq_eval("c10", PREAMBLE, exprs, shard=24)
+    vals = vlib.coq_eval("c10eval", PREAMBLE, exprs, shard=24)
     flags = vlib.parse_coq(vals[0])
     models = {i: vlib.parse_coq(v) for i, v in zip(good, vals[1:])}
     allok = True
@@ -751,7 +751,7 @@ def replay(run, path):
     if a.get("error"):
         print("replay: scenario did not run:", a["error"])
         return 2
-    vals = vlib.coq_eval("c10r", PREAMBLE, ["(cancel_drop_removes code_variant, exit_entry_first code_variant)", coq_expr(a)])
+    vals = vlib.coq_eval("c10replay", PREAMBLE, ["(cancel_drop_removes code_variant, exit_entry_first code_variant)", coq_expr(a)])
     model = vlib.parse_coq(vals[1])
     print("ops  :", a["ops"])
     print("impl :", [str(o) for o in a["obs"]])
